@@ -299,7 +299,10 @@ class Merger:
             return rhs
 
         tagless_lhs = Nodes.tagless_elements(lhs)
-        for idx, ele in enumerate(rhs):
+
+        # LHS and RHS can be one and the same list once an Anchor they share
+        # has been unified; iterate over a copy lest it grow while being read.
+        for idx, ele in enumerate(list(rhs)):
             path_next = path + "[{}]".format(idx)
             self.logger.debug(
                 "Processing element {} at {}.".format(idx, path_next),
@@ -378,7 +381,9 @@ class Merger:
         if merge_mode is AoHMergeOpts.RIGHT:
             return rhs
 
-        for idx, ele in enumerate(rhs):
+        # LHS and RHS can be one and the same list once an Anchor they share
+        # has been unified; iterate over a copy lest it grow while being read.
+        for idx, ele in enumerate(list(rhs)):
             path_next = path + "[{}]".format(idx)
             self.logger.debug(
                 "Processing element #{} at {}.".format(idx, path_next),
